@@ -107,6 +107,12 @@ def cases(tier):
                 for silent in (False, True):   # a program that fails without writing anything to stderr
                     for form in ('sym', 'percent'):
                         yield ('v', place, form, 1, 'none', code, ign, silent)
+        # a failing program whose stderr is not text (not UTF-8): the exit-code policy is the same
+        for place in ('setup-run', 'before-assert-run', 'assert-run', 'cleanup-run', 'setup-percent', 'stdout-from', 'run-transformer', 'exit-code-from'):
+            for ign in (False, True):
+                yield ('v', place, 'percent', 1, 'none', code, ign, 'bin')
+        if code != 0:
+            yield ('v', 'stderr-from', 'percent', 1, 'none', code, False, 'bin')
         for ign in (False, True):
             for sk in ('none', 'str', 'here'):
                 yield ('v', 'stderr-from', 'sym2', 1, sk, code, ign)
@@ -116,6 +122,10 @@ def cases(tier):
         for ai in (0, 3, 12, 14):
             for sk in ('none', 'setup'):
                 yield ('actor', actor, ai, sk)
+    # an unquoted reserved word among the arguments of the action: rejected, or passed on - never the silent end of the argument list
+    for actor in ('file', 'command-line'):
+        for tail in (') b c', 'a1 ) b', 'a1 ( b', 'a1 } b', "a1 ')' b"):
+            yield ('actor-tail', actor, tail)
     # F: cwd after cd
     for place in PLACES:
         yield ('cd', place)
@@ -294,6 +304,8 @@ def run(case) -> Result:
         return _actor(res, case, w, seam)
     if k == 'cd':
         return _cd(res, case, w, seam)
+    if k == 'actor-tail':
+        return _actor_tail(res, case, w, seam)
     if k == 'real':
         return _real(res, case, w, seam)
     raise ValueError(case)
@@ -312,7 +324,7 @@ def _virtual(res, case, w, seam):
         res.stats['combination not expressible'] += 1
         return res
     text, exp, outcome = b
-    seam.default = {'out': OUT, 'err': '' if silent else ERR, 'exit': code}
+    seam.default = {'out': OUT, 'err': ('\udcff\udcfe not text\n' if silent == 'bin' else '') if silent else ERR, 'exit': code}
     seam.script['gen'] = {'out': 'GEN'}
     seam.script['genfail'] = {'out': 'GENOUT', 'err': 'GENERR', 'exit': 3}
     seam.script['generr'] = {'out': 'ignored', 'err': 'GENERR0', 'exit': 0}
@@ -396,7 +408,7 @@ def _shell(res, case, w, seam):
 
 def _actor(res, case, w, seam):
     _, actor, ai, sk = case
-    al = arg_lists('quick')[ai]
+    al = arg_lists('thorough')[ai] if ai >= len(arg_lists('quick')) else arg_lists('quick')[ai]
     argsrc, den = render_args(al)
     _, setup_stdin, _, stext = stdin_src(sk)
     ph_setup = list(DEFS) + ([setup_stdin] if setup_stdin else [])
@@ -460,6 +472,32 @@ def _actor(res, case, w, seam):
     return res
 
 
+def _actor_tail(res, case, w, seam):
+    _, actor, tail = case
+    seam.default = {'out': OUT, 'err': ERR, 'exit': 0}
+    if actor == 'file':
+        conf, act, head = ['act-home = .', 'actor = file % interp'], 'src.txt ' + tail, ['interp', '<HOME>/src.txt']
+    else:
+        conf, act, head = ['act-home = .'], '% interp ' + tail, ['interp']
+    text = '\n'.join(['[conf]'] + conf + ['[act]', act]) + '\n'
+    o = cli.run_case(text)
+    import shlex
+    errs = []
+    calls = seam.calls
+    all_args = shlex.split(tail)
+    if o.ident == 'SYNTAX_ERROR' and o.rc == 65 and not calls:
+        pass
+    elif o.ident == 'PASS' and len(calls) == 1 and calls[0]['args'] == subst(head, calls[0]['cwd'], str(w.home)) + all_args:
+        pass
+    else:
+        errs.append('[act] `%s` (%s actor): expected a syntax error or all the written arguments %s; got %s, processes %s' % (act, actor, all_args, o.ident, [c['args'] for c in calls]))
+    res.outcomes[('actor-tail', actor, o.ident)] += 1
+    res.nontrivial += 1
+    if errs:
+        res.violation(case, errs, {'file': text})
+    return res
+
+
 def _cd(res, case, w, seam):
     """The process is started in the test's current directory (after cd)."""
     _, place = case
@@ -493,7 +531,7 @@ def _cd(res, case, w, seam):
 def _real(res, case, w, seam):
     """A real process (the compiled probe) must receive what the virtual child was given for the same case."""
     _, place, ai, sk = case
-    al = arg_lists('quick')[ai]
+    al = arg_lists('thorough')[ai] if ai >= len(arg_lists('quick')) else arg_lists('quick')[ai]
     dump = str(w.ext / 'dump.json')
     results = {}
     for mode in ('virtual', 'real'):
